@@ -90,6 +90,16 @@ Example C04_recovery_truncates_log_ex :
   L <> [] /\ replay_ops false 1 0 L = (VOk, []) /\ after_effects L ex_main (recovery_effects false L ex_main) = ([], ex_main).
 Proof. vm_compute. repeat split; try reflexivity. discriminate. Qed.
 
+(* every checkpoint (iwkv_close, forced, checkpoint thread) is "savepoint, then apply, then truncate" (Proto.checkpoint
+   with no_fixpoint = false; the effect traces of real runs, incl. iwkv_close, are checked against it).
+   C04_recover_is_prefix_partial covers a kill between "applied" and "truncated" only because of that savepoint: the
+   records applied are then exactly the records redone.  Applying first (no_fixpoint = true) is refuted:
+   kill before the truncation recovers (byte 0, byte 1) = (1, 3) - op 1's byte with op 3's - instead of (2, 3) *)
+Theorem C04_apply_before_savepoint_refuted :
+  cs_crash false = (VOk, 2, 3) /\ cs_crash true = (VOk, 1, 3).
+Proof. exact apply_before_savepoint_refuted. Qed.
+Print Assumptions C04_apply_before_savepoint_refuted.
+
 (* growth in mid-operation: refutation of the full statement on the model (known finding) *)
 Theorem C04_growth_tears_refuted :
   let (s, fx) := run gt_cfg gt_s0 gt_events in
